@@ -889,6 +889,10 @@ def depends_on(c, chk):
     sub16 = report.SubCheck(chk, 'R1.12', 'C16', only=('R16.1',))
     c16.run(c, sub16)
     sub16.done('schema copy')
+    # R1.16: "a free-form key = value pair adds an option": the option the text adds is stored inside the table of its section,
+    # where every lookup finds it (rule R2.11 of C02: the table has been given room for the entry on the same path)
+    from . import c02 as _c02t
+    _c02t.table_growth(c, _c08x.chk_proxy(chk, {'R2.11': 'R1.16'}), 'R2.11')
     # R1.15: what follows an include() line in the text is part of the text: the end of an included file (or of a default value
     # scanned while one is open) returns to the including source, it does not end the input (the include bookkeeping of C07 R7.6)
     from . import c07 as _c07x, c08 as _c08p
